@@ -13,9 +13,9 @@ import (
 // TokKind is the ghost knowledge of which names were issued as what (A7 c).
 func TokKind(tok string) string {
 	switch tok {
-	case "F", "F\x01":
+	case tF, tF1:
 		return "fungible"
-	case "S", "R":
+	case tS, tR:
 		return "nft"
 	}
 	return "unissued"
@@ -86,7 +86,7 @@ func transferMenu(w *world.World, o menuOpts) []world.Action {
 		// single fungible transfers: tokens the sender holds under the bare key, plus one unknown name
 		for _, tok := range [][]byte{uni.F, uni.F1, uni.S1, uni.U} {
 			h := held(w, from, string(tok))
-			if h == 0 && string(tok) != "U" && string(tok) != "S\x01" {
+			if h == 0 && string(tok) != tU && string(tok) != tS1 {
 				continue
 			}
 			for _, to := range dests(o) {
@@ -229,7 +229,7 @@ func freezeMenu(w *world.World, o menuOpts, withWipe bool) []world.Action {
 	}
 	for _, a := range accts {
 		acc := w.Get(a)
-		if spec.Frozen(acc, "F") {
+		if spec.Frozen(acc, tF) {
 			acts = append(acts, uni.SysCall(a, vmcommon.BuiltInFunctionESDTUnFreeze, uni.F))
 			if withWipe {
 				acts = append(acts, uni.SysCall(a, vmcommon.BuiltInFunctionESDTWipe, uni.F))
